@@ -193,6 +193,9 @@ package main
 //@ func (t *Topic) evictUser(uid types.Uid, unsub bool, skip string)
 //@   requires [C03] t != nil
 //@   ensures [C03] detached: forall s *Session :: (s in t.sessions) && s != nil && s.multi == nil ==> t.sessions[s].uid != uid
+//@   ensures [C06] modes_kept: forall u types.Uid :: (u in t.perUser) && old(u in t.perUser) ==> t.perUser[u].modeWant == old(t.perUser[u].modeWant) && t.perUser[u].modeGiven == old(t.perUser[u].modeGiven)
+//@   ensures [C06] others_stay: forall u types.Uid :: u != uid ==> (u in t.perUser) == old(u in t.perUser)
+//@   ensures [C06] subscriber_stays: !unsub && old((uid in t.perUser) && !t.perUser[uid].isChan) ==> (uid in t.perUser)
 //@   modifies inferred
 //@   loop 1
 //@     invariant seen_clean: forall s *Session :: #seen[s] && (s in t.sessions) && s != nil && s.multi == nil ==> t.sessions[s].uid != uid
@@ -320,3 +323,53 @@ package main
 //@   modifies inferred
 //@   ensures [C17] half_or_less: c != nil && c.fo != nil ==> (res <==> 2 * len(c.fo.activeNodes) <= len(c.nodes) + 1)
 //@   ensures [C17] no_failover:  (c == nil || c.fo == nil) ==> !res
+
+// ---------------------------------------------------------------------------------------------------------
+// C06 / C07: ownership and permission changes on a subscription.
+//@ spec func hasO(m types.AccessMode) bool { return (m & types.ModeOwner) != 0 }
+//@ spec func hasJ(m types.AccessMode) bool { return (m & types.ModeJoin) != 0 }
+
+// Cache-management helpers: no contract beyond the frame computed from their bodies (keeps callers small).
+//@ func usersRegisterUser(uid types.Uid, add bool)
+//@   modifies inferred
+//@ func usersUpdateUnread(uid types.Uid, val int, inc bool)
+//@   modifies inferred
+
+// A user's own {sub} / {set sub}. Ownership exists only on group topics (established by the topic constructors).
+//@ func (t *Topic) thisUserSub(sess *Session, pkt *ClientComMessage, asUid types.Uid, asChan bool, want string, private any) (res *MsgAccessMode, err error)
+//@   requires t != nil && sess != nil && pkt != nil
+//@   requires [C07] p2p_wf: t.cat == types.TopicCatP2P ==> (t.accessAuth & ^types.ModeCP2P) == 0 && (t.accessAnon & ^types.ModeCP2P) == 0 && ((asUid in t.perUser) ==> (t.perUser[asUid].modeGiven & ^types.ModeCP2P) == 0 && (t.perUser[asUid].modeGiven & types.ModeApprove) != 0)
+//@   requires [C06] owner_cached: t.owner == asUid ==> (asUid in t.perUser) && !t.perUser[asUid].deleted && !t.perUser[asUid].isChan && t.cat == types.TopicCatGrp
+//@   requires [C06] owner_grp_only: t.cat != types.TopicCatGrp && (asUid in t.perUser) ==> !hasO(t.perUser[asUid].modeGiven)
+//@   modifies inferred
+//@   ensures [C06] owner_keeps_OJ: old(t.owner) == asUid && old(hasO(t.perUser[asUid].modeWant) && hasJ(t.perUser[asUid].modeWant)) ==> t.owner == asUid && (asUid in t.perUser) && hasO(t.perUser[asUid].modeWant) && hasJ(t.perUser[asUid].modeWant)
+//@   ensures [C06] owner_given_kept: old(t.owner) == asUid ==> (asUid in t.perUser) && (t.perUser[asUid].modeGiven & old(t.perUser[asUid].modeGiven)) == old(t.perUser[asUid].modeGiven)
+//@   ensures [C06] no_self_made_owner: old((asUid in t.perUser) && !t.perUser[asUid].deleted && !hasO(t.perUser[asUid].modeGiven)) ==> t.owner == old(t.owner) && ((asUid in t.perUser) ==> !hasO(t.perUser[asUid].modeGiven))
+//@   ensures [C06] transfer: t.owner != old(t.owner) ==> t.owner == asUid && old(hasO(t.perUser[asUid].modeGiven)) && ((asUid in t.perUser) ==> hasO(t.perUser[asUid].modeWant)) && ((old(t.owner) in t.perUser) ==> !hasO(t.perUser[old(t.owner)].modeGiven) && !hasO(t.perUser[old(t.owner)].modeWant))
+//@   ensures [C07] others_untouched: forall u types.Uid :: u != asUid && u != old(t.owner) ==> (u in t.perUser) == old(u in t.perUser) && ((u in t.perUser) ==> t.perUser[u].modeWant == old(t.perUser[u].modeWant) && t.perUser[u].modeGiven == old(t.perUser[u].modeGiven))
+//@   ensures [C07] old_owner_only_loses_O: old(t.owner) != asUid && (old(t.owner) in t.perUser) ==> (t.perUser[old(t.owner)].modeWant | types.ModeOwner) == (old(t.perUser[t.owner].modeWant) | types.ModeOwner) && (t.perUser[old(t.owner)].modeGiven | types.ModeOwner) == (old(t.perUser[t.owner].modeGiven) | types.ModeOwner)
+//@   ensures [C07] no_D_O_for_non_owner: old((asUid in t.perUser) && !t.perUser[asUid].deleted && !hasO(t.perUser[asUid].modeGiven)) && (asUid in t.perUser) ==> (t.perUser[asUid].modeGiven & (types.ModeOwner | types.ModeDelete)) == old(t.perUser[asUid].modeGiven & (types.ModeOwner | types.ModeDelete))
+//@   ensures [C07] given_raised_by_admin_only: old((asUid in t.perUser) && !t.perUser[asUid].deleted && !hasO(t.perUser[asUid].modeGiven)) && (asUid in t.perUser) && t.perUser[asUid].modeGiven != old(t.perUser[asUid].modeGiven) ==> t.cat == types.TopicCatGrp && old((t.perUser[asUid].modeGiven & types.ModeApprove) != 0)
+//@   ensures [C07] join_gate: err == nil && (asUid in t.perUser) ==> hasJ(t.perUser[asUid].modeGiven) || !hasJ(t.perUser[asUid].modeWant)
+//@   ensures [C07] p2p_modes: t.cat == types.TopicCatP2P && (asUid in t.perUser) && t.perUser[asUid].modeWant != old(t.perUser[asUid].modeWant) ==> (t.perUser[asUid].modeWant & ^types.ModeCP2P) == 0 && (t.perUser[asUid].modeWant & types.ModeApprove) != 0
+//@   ensures [C07] sys_root_only: t.cat == types.TopicCatSys && !old((asUid in t.perUser) && !t.perUser[asUid].deleted) && pkt.AuthLvl != int(auth.LevelRoot) ==> err != nil && (asUid in t.perUser) == old(asUid in t.perUser)
+
+// {set sub} / invite / approval acting on another user's subscription.
+//@ spec func canShare(t *Topic, u types.Uid) bool { return (u in t.perUser) && (effMode(t, u) & (types.ModeShare | types.ModeApprove | types.ModeOwner)) != 0 }
+//@ spec func isAdminOf(t *Topic, u types.Uid) bool { return (effMode(t, u) & (types.ModeOwner | types.ModeApprove)) != 0 }
+//@ func (t *Topic) anotherUserSub(sess *Session, asUid types.Uid, target types.Uid, asChan bool, pkt *ClientComMessage) (res *MsgAccessMode, err error)
+//@   requires t != nil && sess != nil && pkt != nil && pkt.Set != nil && pkt.Set.Sub != nil && asUid != target
+//@   requires [C07] p2p_wf: t.cat == types.TopicCatP2P ==> ((asUid in t.perUser) ==> (t.perUser[asUid].modeGiven & ^types.ModeCP2P) == 0)
+//@   requires [C06] defaults_no_owner: !hasO(t.accessAuth) && !hasO(t.accessAnon)
+//@   modifies inferred
+//@   ensures [C06] owner_field: t.owner == old(t.owner)
+//@   ensures [C06] owner_grant_needs_owner: (target in t.perUser) && hasO(t.perUser[target].modeGiven) && !old((target in t.perUser) && hasO(t.perUser[target].modeGiven)) ==> old(t.owner) == asUid
+//@   ensures [C06] owner_protected: old(t.owner) == target && old((target in t.perUser) && !t.perUser[target].deleted && !t.perUser[target].isChan && hasO(t.perUser[target].modeGiven) && hasJ(t.perUser[target].modeGiven)) ==> (target in t.perUser) && hasO(t.perUser[target].modeGiven) && hasJ(t.perUser[target].modeGiven)
+//@   ensures [C07] needs_sharer: !old(canShare(t, asUid)) ==> err != nil && (target in t.perUser) == old(target in t.perUser) && t.perUser[target].modeGiven == old(t.perUser[target].modeGiven) && t.perUser[target].modeWant == old(t.perUser[target].modeWant)
+//@   ensures [C07] explicit_needs_admin: old(pkt.Set.Sub.Mode) != "" && !old(isAdminOf(t, asUid)) ==> err != nil && (target in t.perUser) == old(target in t.perUser) && t.perUser[target].modeGiven == old(t.perUser[target].modeGiven) && t.perUser[target].modeWant == old(t.perUser[target].modeWant)
+//@   ensures [C07] others_untouched: forall u types.Uid :: u != target ==> (u in t.perUser) == old(u in t.perUser) && ((u in t.perUser) ==> t.perUser[u].modeWant == old(t.perUser[u].modeWant) && t.perUser[u].modeGiven == old(t.perUser[u].modeGiven))
+//@   ensures [C07] want_untouched: old((target in t.perUser) && !t.perUser[target].deleted) && (target in t.perUser) ==> t.perUser[target].modeWant == old(t.perUser[target].modeWant)
+//@   ensures [C07] p2p_modes: t.cat == types.TopicCatP2P && old(pkt.Set.Sub.Mode) != "" && (target in t.perUser) && t.perUser[target].modeGiven != old(t.perUser[target].modeGiven) ==> (t.perUser[target].modeGiven & ^types.ModeCP2P) == 0 && (t.perUser[target].modeGiven & types.ModeApprove) != 0
+//@   ensures [C07] p2p_default_invite: t.cat == types.TopicCatP2P && old(pkt.Set.Sub.Mode) == "" && (target in t.perUser) && t.perUser[target].modeGiven != old(t.perUser[target].modeGiven) ==> (t.perUser[target].modeGiven & ^types.ModeCP2P) == 0 && (t.perUser[target].modeGiven & types.ModeApprove) != 0
+//@   ensures [C07] no_channel_promotion: asChan ==> err != nil
+//@   assert at call store.SubsPersistenceInterface.Create [C07] limit: t.cat == types.TopicCatGrp ==> len(t.perUser) < globals.maxSubscriberCount
